@@ -20,6 +20,18 @@ def K(pid, name, mod, functions, bounds, cost=1, tiers=("quick", "thorough"), st
     return d
 
 
+def M(pid, name, spec, functions, bounds, cost=2, tiers=("quick", "thorough"), timeout=1800, **kw):
+    d = {"property": pid, "name": name, "engine": "mirsym", "spec": spec, "functions": functions, "bounds": bounds, "cost": cost,
+         "tiers": list(tiers), "stubs": list(E2_MODELS), "timeout_s": timeout, "full_domain": False}
+    d.update(kw)
+    return d
+
+
+E2_MODELS = ("E2: Hash::sha_256d/sha_256/hash_160/sha_512 are uninterpreted functions (no collision reasoning: equal digests only from provably equal inputs)",
+             "E2: Script is an opaque byte-string carrier (to_bytes/get_script_length/clone/default exact; remove_codeseparators uninterpreted); prev_tx_id has 32 bytes",
+             "E2: error payloads (format!/BSVErrors construction closures of ok_or_else/map_err) are not executed",
+             "E2: Vec<TxIn>/Vec<TxOut> have the concrete lengths listed in the bounds; byte strings have symbolic length (64-bit length variable, <= 2^33)")
+
 OBLIGATIONS = []
 
 # ---------------------------------------------------------------- C01
@@ -33,6 +45,18 @@ OBLIGATIONS += [
     K("C01", "c01_outpoint_roundtrip", "c01", ["TxIn::from_outpoint_bytes", "TxIn::get_outpoint_bytes", "TxIn::get_prev_tx_id", "TxIn::get_vout"],
       "all 36-byte outpoints; unwind 38 (36-byte copy loops)", cost=3, full_domain=True),
 ]
+
+# ---------------------------------------------------------------- C03
+EXPLANATION["C03"] = ("FORKID sighash preimage. E2 (mirsym): the MIR of sighash_preimage_impl -> sighash_bip143 -> hash_inputs/hash_sequence/hash_outputs and all "
+                      "their callees (write_varint, get_outpoint_bytes, TxOut::to_bytes_impl, closures, ...) is executed symbolically path by path; every path's "
+                      "result is compared with an independent encoding of the replay-protected sighash specification (QF_BV queries, z3). Counterexamples are replayed natively.")
+BIP143_FUNCS = ["Transaction::sighash_preimage_impl", "Transaction::sighash_bip143", "Transaction::hash_inputs", "Transaction::hash_sequence", "Transaction::hash_outputs",
+                "TxIn::get_outpoint_bytes", "TxIn::get_prev_tx_id", "TxIn::get_sequence", "TxOut::to_bytes_impl", "VarIntWriter::write_varint (Vec<u8>) + closures", "Transaction::get_input/get_output"]
+for (ki, ko, tiers, cost) in ((1, 1, ("quick", "thorough"), 2), (2, 1, ("quick", "thorough"), 3), (2, 2, ("quick", "thorough"), 4), (1, 2, ("thorough",), 3), (2, 0, ("thorough",), 2),
+                              (3, 3, ("thorough",), 9), (3, 1, ("thorough",), 5)):
+    OBLIGATIONS.append(M("C03", f"c03_bip143_k{ki}x{ko}", {"q": "bip143", "k_in": ki, "k_out": ko}, BIP143_FUNCS,
+                         f"{ki} inputs x {ko} outputs, every input index 0..{ki} (incl. one past the end), all six FORKID flags, empty hash cache; all scalars, 64-bit value and "
+                         "all script/subscript lengths symbolic (lengths <= 2^33, crossing 252/253, 65535/65536 and 2^32 inside one query)", cost=cost, tiers=tiers))
 
 
 def for_property(pid):
